@@ -112,7 +112,9 @@ func (NetH) Gen(prop string, seed uint64, tier string) *hx.Case {
 				switch r.Pick(30, 15, 20, 15, 20) {
 				case 4: // headers first; the node asks for the block with getdata; the peer answers with the block, or with something else
 					add("headers", "hdr-new")
-					switch r.Intn(4) {
+					switch r.Intn(5) {
+					case 4:
+						slow("block", "blk-rule")
 					case 0, 1:
 						slow("block", "blk-planned")
 					case 2:
@@ -149,6 +151,8 @@ func (NetH) Gen(prop string, seed uint64, tier string) *hx.Case {
 				m.Cmd, m.Kind = "version", "valid"
 				if r.Chance(0.15) {
 					m.Kind = []string{"short82", "trunc", "random", "badagentlen", "mutate"}[r.Intn(5)]
+				} else if p > 0 && r.Chance(0.3) {
+					m.Kind = "samenonce" // the nonce another connection has used (looks like a connection to ourselves)
 				}
 			} else if i == 1 && withVersion && r.Chance(0.7) {
 				m.Cmd, m.Kind = "verack", "valid"
@@ -269,6 +273,7 @@ type netRun struct {
 	known   [][32]byte
 	stop    bool
 	maxStep int
+	nonces  [][]byte // nonces of the version messages sent so far
 	pend    [64][32]byte
 	npend   int
 	plans   map[int]*cbPlan // per peer: the block of the compact-block conversation in progress
@@ -374,13 +379,23 @@ func (n *netRun) cmpct(p int, b *ledger.Block, nonce []byte, prefilled []bool) [
 }
 
 func (n *netRun) versionPayload(r *hx.Rng, height uint32) []byte {
+	return n.versionPayloadN(r, height, false)
+}
+
+// versionPayloadN: sameNonce re-uses the nonce an earlier version message (of any peer) carried.
+func (n *netRun) versionPayloadN(r *hx.Rng, height uint32, sameNonce bool) []byte {
 	var b bytes.Buffer
 	binary.Write(&b, binary.LittleEndian, uint32(70016))
 	binary.Write(&b, binary.LittleEndian, uint64(1|8|1024))
 	binary.Write(&b, binary.LittleEndian, uint64(time.Now().Unix()))
 	b.Write(netAddr(r, false))
 	b.Write(netAddr(r, false))
-	b.Write(r.Bytes(8))
+	nonce := r.Bytes(8)
+	if sameNonce && len(n.nonces) > 0 {
+		nonce = n.nonces[r.Intn(len(n.nonces))]
+	}
+	n.nonces = append(n.nonces, nonce)
+	b.Write(nonce)
 	agent := "/Satoshi:25.0.0/"
 	b.Write(vint(uint64(len(agent))))
 	b.WriteString(agent)
@@ -551,6 +566,23 @@ func (n *netRun) convPayload(m *NetMsg, r *hx.Rng) (pl []byte, ok bool) {
 			return nil, false
 		}
 		delete(n.plans, p)
+		return cp.blk.Bytes(), true
+	case "blk-rule":
+		// a well-formed block that breaks one header / structure / commitment rule (C05's catalogue)
+		cp := n.plan(p, r)
+		if cp == nil {
+			return nil, false
+		}
+		delete(n.plans, p)
+		n.m.R = r
+		kind := ledger.C05Violations[r.Intn(len(ledger.C05Violations))]
+		if kind == "weight-over" || kind == "time-future" {
+			kind = "witness-nonce-size"
+		}
+		par := n.l.Nodes[cp.blk.H.Prev]
+		if par == nil || !n.m.MutateC05(par, cp.blk, kind, time.Now().Unix()) {
+			return cp.blk.Bytes(), true
+		}
 		return cp.blk.Bytes(), true
 	case "blocktx":
 		// relay the next transaction of the block that will be announced
@@ -757,7 +789,7 @@ func (n *netRun) payload(m *NetMsg, r *hx.Rng) []byte {
 	switch m.Cmd {
 	case "version":
 		// the peer claims to be at our height or ahead of us (only then are blocks asked from it)
-		pl = n.versionPayload(r, n.model.Height+[]uint32{0, 1, 3, 100}[r.Intn(4)])
+		pl = n.versionPayloadN(r, n.model.Height+[]uint32{0, 1, 3, 100}[r.Intn(4)], m.Kind == "samenonce")
 	case "addr":
 		cnt := r.Range(0, 12)
 		if r.Chance(0.3) {
